@@ -422,6 +422,11 @@ func collectWatches(e Expr, w map[string]bool) {
 				w["calls "+normAnchor(s.Val)] = true
 			}
 		}
+		if id, ok := x.Fun.(*EIdent); ok && id.Name == "exhausted" && len(x.Args) == 1 {
+			if n, ok := x.Args[0].(*ENum); ok {
+				w["loopdone "+n.Text] = true
+			}
+		}
 		if id, ok := x.Fun.(*EIdent); ok && id.Name == "lastret" && len(x.Args) >= 1 {
 			if s, ok := x.Args[0].(*EStr); ok {
 				w[lastretKey(s.Val)] = true
@@ -465,6 +470,9 @@ func (c *FnCtx) setupEntry() {
 	for k := range c.watch {
 		if strings.HasPrefix(k, "calls ") {
 			c.ghost[k] = Val{T: c.mode.idxLit(0), Ty: intTy}
+		}
+		if strings.HasPrefix(k, "loopdone ") {
+			c.ghost[k] = Val{T: "false", Ty: boolTy}
 		}
 	}
 	for _, l := range c.g.cs.Lemmas {
